@@ -34,15 +34,15 @@ Proof.
   unfold b_ldpsw, nth_op. cbn [nth_error res_of_option bind].
   rewrite MA. cbn [bind fst snd]. rewrite mk_bin_ok by (rewrite Hae; reflexivity). cbn [unwrap bind].
   rewrite !mk_ext_ok by (cbn [e_bits s_temp0 s_temp1 sbits]; lia). cbn [unwrap bind operand_store].
-  destruct (exec_load_frame s st 38%N 32 a_e A 4%nat d1 He ltac:(lia) ltac:(lia) eq_refl (DA st He) HA M1 R1)
+  destruct (exec_load_frame s st 70%N 32 a_e A 4%nat d1 He ltac:(lia) ltac:(lia) eq_refl (DA st He) HA M1 R1)
     as (st1 & E1 & He1 & G1 & F1 & Mm1).
   assert (DA2 : den (st_env st1) (EBin Add a_e (expr_const 4 64)) = Ok (mkc 64 (A + 4))).
   { rewrite (den_bin _ Add _ _ 64 A (U 64 4) (DA st1 He1)) by (apply den_const; lia).
     cbn [sp_bin]. unfold s_add, U. f_equal. f_equal. change (4 mod 2 ^ 64) with 4. apply Z.mod_small. lia. }
   assert (M2' : forall x, In x (addr_range (A + 4) 4) -> bm_get (st_mem st1) x <> None) by (rewrite Mm1; exact M2).
-  destruct (exec_load_frame s st1 39%N 32 _ (A + 4) 4%nat d2 He1 ltac:(lia) ltac:(lia) eq_refl DA2 ltac:(lia) M2' R2)
+  destruct (exec_load_frame s st1 71%N 32 _ (A + 4) 4%nat d2 He1 ltac:(lia) ltac:(lia) eq_refl DA2 ltac:(lia) M2' R2)
     as (st2 & E2 & He2 & G2 & F2 & Mm2).
-  assert (G1' : env_get (st_env st2) (38%N, None) = Some (mkc 32 d1)) by (rewrite F2 by congruence; exact G1).
+  assert (G1' : env_get (st_env st2) (70%N, None) = Some (mkc 32 d1)) by (rewrite F2 by congruence; exact G1).
   assert (Dt0 : den (st_env st2) (EExt Sext 64 (EScalar (s_temp0 32))) = Ok (mkc 64 (s_sext 64 32 d1))).
   { rewrite (den_ext _ _ _ _ (mkc 32 d1)) by (apply den_scalar_get; [exact G1'|reflexivity]). reflexivity. }
   destruct (reg_set_frame s st2 rt' (EExt Sext 64 (EScalar (s_temp0 32))) 64 _ He2 Hrt ltac:(lia) eq_refl Dt0)
